@@ -113,6 +113,7 @@ class WrapSpec:
     scans: List[Tuple[str, int]] = field(default_factory=list)            # (fragment, ordinal of the `.position(` inside it): rule R13
     optmaps: List[Tuple[str, int]] = field(default_factory=list)          # (fragment, ordinal of the `.map(` inside it): rule R29
     loopify: List[Tuple[str, str, int, str]] = field(default_factory=list)  # (fragment, method, ordinal, element type): rules R15..R19, R30
+    gaps: Dict[Tuple[str, str], str] = field(default_factory=dict)        # (fragment A, fragment B) -> /repo text allowed between them
     ensure_err: str = ""                                                   # rule R28: anyhow ensure!(c, ..) -> if !(c) { return Err(<this>) }
     frag_loops: Dict[str, Dict[int, Dict[str, List[str]]]] = field(default_factory=dict)   # fragment -> loop ordinal -> entries
 
@@ -261,6 +262,11 @@ def parse(path: str) -> UnitSpec:
                 if not m:
                     raise SpecError(f"{path}:{ln}: bad wrap loopify entry")
                 cur.loopify.append((m.group(1), m.group(2), int(m.group(3)), (m.group(4) or "").strip()))
+            elif head == "gap":
+                m = re.match(r"^(\w+)\s+(\w+)\s*=\s*(.*)$", rest, re.S)
+                if not m:
+                    raise SpecError(f"{path}:{ln}: bad gap entry")
+                cur.gaps[(m.group(1), m.group(2))] = m.group(3).strip()
             elif head == "optmap":
                 a, b = rest.split()
                 cur.optmaps.append((a, int(b)))
